@@ -8,5 +8,31 @@ const std::vector<Sol>& registry() {
   return reg();
 }
 const Sol* find(const std::string& name) { for (auto& s : registry()) if (s.name == name) return &s; return nullptr; }
+int default_special_ok(const std::string& n) {
+  if (n.size() < 3 || n == "Pr_t") return 0;     // Pr_t is a Prandtl number (divisor), not a temporal amplitude
+  if (n.rfind("a_", 0) == 0) return 2;                                   // wave numbers
+  std::string suf = n.substr(n.size() - 2);
+  bool amp_ = suf == "_x" || suf == "_y" || suf == "_z" || suf == "_t";
+  if (!amp_) return 0;
+  if (n.rfind("u_", 0) == 0 || n.rfind("v_", 0) == 0 || n.rfind("w_", 0) == 0) return 2;   // velocity amplitudes: sign and size free
+  return 1;                                                               // rho_*, p_*, T_*, nu_sa_*: zero keeps the field positive
+}
+void specialise(vh::Rng& r, const Sol& s, Draw& d, const std::vector<std::string>& names, std::string& what) {
+  auto ok = s.special_ok ? s.special_ok : default_special_ok;
+  std::vector<std::string> el;
+  for (auto& n : names) if (ok(n) > 0) el.push_back(n);
+  if (el.empty()) return;
+  int k = 1 + r.below(3);
+  for (int i = 0; i < k; i++) {
+    const std::string& n = el[(size_t)r.below((int)el.size())];
+    int kind = ok(n) == 1 ? 0 : r.below(4);
+    switch (kind) {
+      case 0: d.set(n, 0.0L); what += n + "=0 "; break;
+      case 1: d.set(n, r.sgn()); what += n + "=+-1 "; break;
+      case 2: d.set(n, (long double)(2 + r.below(2))); what += n + "=int "; break;
+      default: { const std::string& m = el[(size_t)r.below((int)el.size())]; if (ok(m) == 2 && m != n) { d.set(n, d.get(m)); what += n + "=" + m + " "; } break; }
+    }
+  }
+}
 void box_point(vh::Rng& r, long double* x, int n) { for (int i = 0; i < n; i++) x[i] = r.uni(-2.0L, 2.0L); }
 }  // namespace orc
